@@ -164,7 +164,10 @@ theorem rwLoop_items : ∀ (its : List Item) (prev fuel : Nat) (f : Bool), its.a
     | comment body =>
       have hfl : flatten (Item.comment body :: r) = 47 :: (42 :: (body ++ [42, 47]) ++ flatten r) := rfl
       have hn' : nssGo false r = true := by simpa [nssGo] using hn
-      have hb : hasStarSlash body = false := by simpa [Item.ok] using hit
+      have hb : hasStarSlash body = false := by
+        have := hit
+        simp only [Item.ok, Bool.and_eq_true, Bool.not_eq_true'] at this
+        exact this.1
       have hlen0 := hlen
       rw [hfl] at hlen
       obtain ⟨fu, rfl⟩ : ∃ fu, fuel = fu + 1 := ⟨fuel - 1, by simp at hlen; omega⟩
@@ -235,5 +238,157 @@ theorem rwLoop_items : ∀ (its : List Item) (prev fuel : Nat) (f : Bool), its.a
       · have h47' : (y == 47) = false := by simpa using h47
         simp only [h47', Bool.false_eq_true, if_false, Bool.false_and, ih y fu _ hr hn' hlen', Option.map_map]
         rfl
+
+end GV.Proofs.Minify
+
+namespace GV.Proofs.Minify
+open GV.Minify GV.JsTokens
+
+theorem ch_first {c : Nat} (h : (Item.ch c).ok = true) : c ≠ 32 ∧ c ≠ 9 ∧ c ≠ 10 ∧ c ≠ 8 ∧ c ≠ 34 := by
+  simp [Item.ok, isWsByte] at h
+  omega
+
+/-- the parse of a byte string into items is unique -/
+theorem parse_unique_aux : ∀ (a b : List Item) (f : Bool), a.all Item.ok = true → b.all Item.ok = true →
+    nssGo f a = true → nssGo f b = true → flatten a = flatten b → a = b := by
+  intro a
+  induction a with
+  | nil =>
+    intro b f _ hb _ _ h
+    exact ((flatten_nil_iff b hb).mp h.symm).symm
+  | cons ia ra ih =>
+    intro b f ha hb hna hnb h
+    cases b with
+    | nil => exact ((flatten_nil_iff _ ha).mp h)
+    | cons ib rb =>
+      simp only [List.all_cons, Bool.and_eq_true] at ha hb
+      obtain ⟨hia, hra⟩ := ha
+      obtain ⟨hib, hrb⟩ := hb
+      have hfa : flatten (ia :: ra) = ia.bytes ++ flatten ra := rfl
+      have hfb : flatten (ib :: rb) = ib.bytes ++ flatten rb := rfl
+      rw [hfa, hfb] at h
+      cases ia with
+      | ws c =>
+        have hc := ws_cases (by simpa [Item.ok] using hia)
+        cases ib with
+        | ws d =>
+          simp [Item.bytes] at h
+          obtain ⟨h1, h2⟩ := h
+          subst h1
+          rw [ih rb false hra hrb (by simpa [nssGo] using hna) (by simpa [nssGo] using hnb) h2]
+        | comment d => simp [Item.bytes] at h; omega
+        | hint d =>
+          obtain ⟨hi, lo, p, rfl, _⟩ := hint_shape hib
+          simp [Item.bytes] at h; omega
+        | str d => simp [Item.bytes] at h; omega
+        | ch d =>
+          have := ch_first hib
+          simp [Item.bytes] at h; omega
+      | comment ba =>
+        have hba : hasStarSlash ba = false := by
+          have := hia
+          simp only [Item.ok, Bool.and_eq_true, Bool.not_eq_true'] at this
+          exact this.1
+        cases ib with
+        | ws d =>
+          have hc := ws_cases (by simpa [Item.ok] using hib)
+          simp [Item.bytes] at h; omega
+        | comment bb =>
+          have hbb : hasStarSlash bb = false := by
+            have := hib
+            simp only [Item.ok, Bool.and_eq_true, Bool.not_eq_true'] at this
+            exact this.1
+          simp only [Item.bytes, List.cons_append, List.cons.injEq, true_and, List.append_assoc] at h
+          have e1 := findStarSlash_body ba (flatten ra) hba
+          have e2 := findStarSlash_body bb (flatten rb) hbb
+          simp only [List.cons_append, List.nil_append] at h
+          rw [h, e2] at e1
+          have hl : bb.length = ba.length := by simpa using e1
+          have h3 := List.append_inj h hl.symm
+          obtain ⟨h4, h5⟩ := h3
+          simp at h5
+          subst h4
+          rw [ih rb false hra hrb (by simpa [nssGo] using hna) (by simpa [nssGo] using hnb) h5]
+        | hint d =>
+          obtain ⟨hi, lo, p, rfl, _⟩ := hint_shape hib
+          simp [Item.bytes] at h
+        | str d => simp [Item.bytes] at h
+        | ch d =>
+          simp only [Item.bytes, List.cons_append, List.cons.injEq, List.nil_append] at h
+          obtain ⟨h1, h2⟩ := h
+          subst h1
+          have hn' : nssGo true rb = true := by
+            simp only [nssGo, Bool.and_eq_true] at hnb; simpa using hnb.2
+          have := next_not_star rb hrb hn'
+          rw [← head_flatten rb hrb, ← h2] at this
+          simp at this
+      | hint ba =>
+        obtain ⟨hi, lo, p, rfl, hp⟩ := hint_shape hia
+        cases ib with
+        | ws d =>
+          have hc := ws_cases (by simpa [Item.ok] using hib)
+          simp [Item.bytes] at h; omega
+        | comment d => simp [Item.bytes] at h
+        | hint bb =>
+          obtain ⟨hi', lo', p', rfl, hp'⟩ := hint_shape hib
+          simp only [Item.bytes, List.cons_append, List.cons.injEq, true_and] at h
+          obtain ⟨h1, h2, h3⟩ := h
+          subst h1; subst h2
+          have h4 := List.append_inj h3 (by omega)
+          obtain ⟨h5, h6⟩ := h4
+          subst h5
+          rw [ih rb false hra hrb (by simpa [nssGo] using hna) (by simpa [nssGo] using hnb) h6]
+        | str d => simp [Item.bytes] at h
+        | ch d =>
+          have := ch_first hib
+          simp [Item.bytes] at h; omega
+      | str ba =>
+        have hba : strBodyOK ba = true := by simpa [Item.ok] using hia
+        cases ib with
+        | ws d =>
+          have hc := ws_cases (by simpa [Item.ok] using hib)
+          simp [Item.bytes] at h; omega
+        | comment d => simp [Item.bytes] at h
+        | hint d =>
+          obtain ⟨hi, lo, p, rfl, _⟩ := hint_shape hib
+          simp [Item.bytes] at h
+        | str bb =>
+          have hbb : strBodyOK bb = true := by simpa [Item.ok] using hib
+          simp only [Item.bytes, List.cons_append, List.cons.injEq, true_and, List.append_assoc, List.nil_append] at h
+          have e1 := strLoop_body ba.length ba (flatten ra) (Nat.le_refl _) hba
+          have e2 := strLoop_body bb.length bb (flatten rb) (Nat.le_refl _) hbb
+          rw [h, e2] at e1
+          simp at e1
+          obtain ⟨h4, h5⟩ := e1
+          subst h4
+          rw [ih rb false hra hrb (by simpa [nssGo] using hna) (by simpa [nssGo] using hnb) h5.symm]
+        | ch d =>
+          have := ch_first hib
+          simp [Item.bytes] at h; omega
+      | ch c =>
+        have hcf := ch_first hia
+        cases ib with
+        | ws d =>
+          have hc := ws_cases (by simpa [Item.ok] using hib)
+          simp [Item.bytes] at h; omega
+        | comment d =>
+          simp only [Item.bytes, List.cons_append, List.cons.injEq, List.nil_append] at h
+          obtain ⟨h1, h2⟩ := h
+          subst h1
+          have hn' : nssGo true ra = true := by
+            simp only [nssGo, Bool.and_eq_true] at hna; simpa using hna.2
+          have := next_not_star ra hra hn'
+          rw [← head_flatten ra hra, h2] at this
+          simp at this
+        | hint d =>
+          obtain ⟨hi, lo, p, rfl, _⟩ := hint_shape hib
+          simp [Item.bytes] at h; omega
+        | str d => simp [Item.bytes] at h; omega
+        | ch d =>
+          simp [Item.bytes] at h
+          obtain ⟨h1, h2⟩ := h
+          subst h1
+          simp only [nssGo, Bool.and_eq_true] at hna hnb
+          rw [ih rb (c == 47) hra hrb hna.2 hnb.2 h2]
 
 end GV.Proofs.Minify
